@@ -509,12 +509,21 @@ static const char *m_ident(void *s)
 	return "mock";
 }
 
+/* what was handed to the transport during the current op, as hex, one chunk per send call */
+static char txbuf[1 << 16];
+static size_t txlen;
+
 static int m_send(const void *s, const void *pdu, const size_t len, const time_t timeout)
 {
 	(void)s;
-	(void)pdu;
 	(void)timeout;
 	sent_pdus++;
+	if (txlen + 2 * len + 2 < sizeof(txbuf)) {
+		if (txlen)
+			txbuf[txlen++] = ',';
+		for (size_t i = 0; i < len; i++)
+			txlen += (size_t)sprintf(txbuf + txlen, "%02x", ((const unsigned char *)pdu)[i]);
+	}
 	return (int)len;
 }
 
@@ -620,8 +629,8 @@ static void tail(void)
 	printf(" | cb=[%s] | ev=[%s] | n=%lu live=%lu X=%lu F=%lu L=%lu", cbbuf, evbuf, op_allocs, live_blocks, n_X, n_F,
 	       n_L);
 	if (tail_extra)
-		printf(" # state=%d resetting=%d sent=%lu rxleft=%zu", (int)rsock.state, (int)rsock.is_resetting, sent_pdus,
-		       rxlen - rxoff);
+		printf(" # state=%d resetting=%d sent=%lu rxleft=%zu tx=%s", (int)rsock.state, (int)rsock.is_resetting, sent_pdus,
+		       rxlen - rxoff, txlen ? txbuf : "-");
 	tail_extra = 0;
 	printf("\n");
 }
@@ -881,6 +890,8 @@ int main(void)
 			rxlen = unhex(h, &rx);
 			rxoff = 0;
 			sent_pdus = 0;
+			txlen = 0;
+			txbuf[0] = 0;
 			rsock.state = RTR_SYNC;
 			rsock.version = 1;
 			rsock.is_resetting = false;
